@@ -80,7 +80,6 @@ fn scenarios(thorough: bool) -> Vec<Scenario> {
             Scenario { name: "entitlement-grow-cold", prefix: vec![Op::Entitle { parent: p(), child: c(), res: r3("AS65000-AS65005", "10.0.0.0/16", "2001:db8::/48") }], cold: true, before: vec![], op: Op::Entitle { parent: p(), child: c(), res: r3("AS65000-AS65005", "10.0.0.0/16, 10.1.0.0/16", "2001:db8::/48") } },
             Scenario { name: "republish-after-a-day", prefix: vec![Op::Tick { secs: 86400 }], cold: false, before: vec![], op: Op::Republish { force: false } },
             Scenario { name: "roll-init-rolling-parent", prefix: vec![Op::RollInit { ca: p() }], cold: false, before: vec![], op: Op::RollInit { ca: c() } },
-            Scenario { name: "child-removed", prefix: vec![], cold: false, before: vec![], op: Op::RemoveChild { parent: c(), child: "gc".into() } },
             Scenario { name: "update-id", prefix: vec![], cold: false, before: vec![], op: Op::UpdateId { ca: c() } },
         ]);
     }
